@@ -210,6 +210,9 @@ def jobs_for(tier):
     add(4, params=[(2, 2)], mpd=2, merge=False, graft="adam", nesterov=False, bias_corr=True, decoupled=True, pf=2, sps=2, precond="soap_eigh", stops=[2, 3], fixed=dict(mom=0))
     add(3, params=[(2, 2)], mpd=2, merge=False, graft=None, nesterov=False, bias_corr=True, decoupled=True, pf=2, sps=2, precond="soap_qr", stops=[2], fixed=dict(mom=0, wd=0))
     add(2, params=[(2, 2), (2,)], groups=[[0], [1]], mpd=2, merge=False, graft="sgd", nesterov=True, bias_corr=True, decoupled=True, pf=1, sps=1, stops=[1])
+    # half-precision parameters: every state tensor the run reads must be the one that is checkpointed
+    add(2, params=[(2, 2)], mpd=2, merge=False, graft="adam", nesterov=False, bias_corr=True, decoupled=True, pf=1, sps=2, stops=[1], pdtype="bfloat16", fdtype="float32", fixed=dict(mom=0))
+    add(2, params=[(2, 2)], mpd=2, merge=False, graft="rmsprop", nesterov=False, bias_corr=True, decoupled=True, pf=1, sps=1, stops=[1], pdtype="float16", fdtype="float32", fixed=dict(mom=0, wd=0))
     # hyperparameters changed after construction (lr / weight-decay scheduler) must come back from the checkpoint
     add(2, params=[(2, 2), (2,)], groups=[[0], [1]], mpd=2, merge=False, graft="adam", nesterov=False, bias_corr=True, decoupled=True, pf=1, sps=1, stops=[0, 1], schedule=True, fixed=dict(mom=0))
     # a block that carries no Kronecker factor (every dimension ignored)
@@ -267,5 +270,7 @@ def run(tier, seed, argv):
 
 def replay(record):
     if ((record.get("info") or {}).get("signature") or {}).get("layout") == "ddp":
-        return False, "DDP resume counterexamples have no real-backend replay yet (inconclusive)"
+        from checks import c09_replay
+
+        return c09_replay.replay(record)
     return H.replay_record(record, make)
